@@ -25,7 +25,7 @@ PROP = "C07"
 LEVEL = "fault_enumeration"
 FLAVOUR = "plain"
 FLAVOURS = ["plain", "san"]
-TIERS = {"quick": (18000, 170), "thorough": (1000000, 3300)}
+TIERS = {"quick": (16000, 170), "thorough": (1000000, 3300)}
 RULE_TEXT = ("one run = (A) one generated chart with one planted failing element (kind and position drawn from every executable block: onentry, onexit, transition, "
              "initial/history transition, nested <if>, <data>) x one event history, refined against the reference model that knows the failing element, or "
              "(B) one seeded XML mutation of a generated chart loaded and stepped under crash containment; a third of the runs use the ASan+UBSan build; "
@@ -192,7 +192,7 @@ def gen_plan(seed, k):
     root = p_c01.gen_chart(rp, dm, feats)
     planted = None
     if mode == "A":
-        planted = gen.plant_failure(root, rp, dm)
+        planted = gen.plant_failure(root, rp, dm, allow_src=True)
         xml = root.xml()
     else:
         xml = mutate_xml(root.xml(), rp)
